@@ -264,4 +264,48 @@ std::string battery(NifFile& nif, ContentIds& ids, bool asJson) {
 	for (auto& it : items) o.add(it.first.c_str(), it.second);
 	return o.done();
 }
+
+long long batteryNames(NifFile& nif, ContentIds& ids) {
+	auto& hdr = nif.GetHeader();
+	std::string buf;
+	auto str = [&](const std::string& x) {
+		buf += x;
+		buf.push_back('\0');
+	};
+	auto nameOf = [&](uint32_t id) -> std::string {
+		if (auto n = hdr.GetBlock<NiObjectNET>(id)) return n->GetBlockName() + std::string(":") + n->name.get();
+		if (auto o = hdr.GetBlock<NiObject>(id)) return o->GetBlockName();
+		return id == NIF_NPOS ? "-" : "?";
+	};
+	// nodes and shapes in name order (block order moves under a sorting save)
+	std::vector<std::string> lines;
+	// (nodes that nothing references are pruned by a default save: only what hangs below the root is listed)
+	std::vector<NiObject*> tree;
+	nif.GetTree(tree);
+	for (auto o : tree)
+		if (auto n = dynamic_cast<NiNode*>(o)) {
+			auto p = nif.GetParentNode(n);
+			lines.push_back("node " + n->name.get() + " < " + (p ? p->name.get() : std::string("-")));
+		}
+	for (auto shape : nif.GetShapes()) {
+		if (std::find(tree.begin(), tree.end(), (NiObject*) shape) == tree.end()) continue;
+		std::string l = "shape " + shape->name.get() + " " + shape->GetBlockName();
+		auto p = nif.GetParentNode(shape);
+		l += " < " + (p ? p->name.get() : std::string("-"));
+		std::vector<std::string> bones;
+		nif.GetShapeBoneList(shape, bones);
+		for (auto& b : bones) l += " b:" + b;
+		if (auto si = hdr.GetBlock<NiSkinInstance>(shape->SkinInstanceRef())) l += " root:" + nameOf(si->targetRef.index);
+		else if (auto bi = hdr.GetBlock<BSSkinInstance>(shape->SkinInstanceRef())) l += " root:" + nameOf(bi->targetRef.index);
+		if (auto sh = nif.GetShader(shape)) l += " shader:" + std::string(sh->GetBlockName()) + ":" + sh->name.get();
+		for (uint32_t t = 0; t < 10; t++) {
+			std::string tex;
+			if (nif.GetTextureSlot(shape, tex, t)) l += " t:" + tex;
+		}
+		lines.push_back(l);
+	}
+	std::sort(lines.begin(), lines.end());
+	for (auto& l : lines) str(l);
+	return ids.of(buf);
+}
 } // namespace vh
